@@ -80,12 +80,15 @@ Fixpoint group_loop (rec : list token -> pres (list ttree)) (tokens rest : list 
   match rest with
   | [] =>
       match openers with
-      | (_, tok) :: _ => PRej (mkXpe (Some (t_pos tok)) (msg_group_enclosed_expressions_1 (t_str tok)) false)
+      | (_, tok) :: _ => PRej (mkXpe (Some (t_pos tok)) (msg_group_enclosed_expressions_2 (t_str tok)) false)
       | [] => POk result
       end
   | tok :: rest' =>
       if is_opener tok then group_loop rec tokens rest' (S i) result ((i, tok) :: openers)
       else if is_closer tok then
+        if null openers then
+          PRej (mkXpe (Some (t_pos tok)) (msg_group_enclosed_expressions_0 (t_str tok)) false)
+        else
         match openers with
         | [] => PCrash S_group_pop
         | (start_pos, start_token) :: openers' =>
@@ -94,7 +97,7 @@ Fixpoint group_loop (rec : list token -> pres (list ttree)) (tokens rest : list 
             | Some k =>
                 if negb (tkind_eqb (t_kind tok) k) then
                   PRej (mkXpe (Some (t_pos tok))
-                              (msg_group_enclosed_expressions_0 (t_str tok) (t_str start_token)
+                              (msg_group_enclosed_expressions_1 (t_str tok) (t_str start_token)
                                                                 (dec (t_pos start_token))) false)
                 else
                   match openers' with
@@ -171,10 +174,10 @@ Definition axis_of_generator_name (g : str) : axis :=
   else if str_eqb g s_self then AxSelf
   else AxOther g.
 
-(* Axis(name): getattr(self, name.replace("-", "_"), None); axis_names is generated *)
+(* Axis(name): `if name not in self._names: raise`; axis_names (generated) = the members of Axis._names with the
+   __name__ of getattr(self, name.replace("-", "_")), which the generator checks to exist for each of them *)
 Definition axis_ctor (name : str) : pres axis :=
-  let nm := map (fun c => if N.eqb c HYPHEN then UNDERSCORE else c) name in
-  match assoc nm axis_names with
+  match assoc name axis_names with
   | None => PRej (mkXpe None msg_Axis_0 false)
   | Some g => POk (axis_of_generator_name g)
   end.
@@ -229,9 +232,13 @@ Fixpoint digit_value_in (c : char) (rs : list (N * N)) : N :=
   | [] => 0%N
   | (lo, hi) :: r => if (N.leb lo c && N.leb c hi)%bool then N.modulo (c - lo) 10 else digit_value_in c r
   end.
-Definition py_int (s : str) : pres N :=
-  if Nat.ltb int_max_str_digits (length s) then PCrash S_expr_int
-  else POk (fold_left (fun acc c => (acc * 10 + digit_value_in c digit_ranges)%N) s 0%N).
+(* None = ValueError: more than sys.get_int_max_str_digits() digits (caught by the parser) *)
+Definition py_int (s : str) : option N :=
+  if Nat.ltb int_max_str_digits (length s) then None
+  else Some (fold_left (fun acc c => (acc * 10 + digit_value_in c digit_ranges)%N) s 0%N).
+
+Definition is_node_type_name (s : str) : bool :=
+  match assoc s node_type_test_mapping with Some _ => true | None => false end.
 
 Definition attribute_value_of (e : expr) : expr :=
   match e with HasAttribute p l => AttributeValue p l | _ => e end.
@@ -255,8 +262,13 @@ Definition s_position : str := [112;111;115;105;116;105;111;110]%N.
 Definition s_equals : str := [61%N].
 
 Definition parse_evaluation_expression_body (rec : list ttree -> pres expr) (tokens : list ttree) : pres expr :=
-  if all_tokens_match tokens [S_ NUMBER] then
-    t0 <- nth_tok tokens 0 ;; n <- py_int (t_str t0) ;; POk (AnyValue (VNum n))
+  if null tokens then PRej (mkXpe None msg_parse_evaluation_expression_0 false)
+  else if all_tokens_match tokens [S_ NUMBER] then
+    t0 <- nth_tok tokens 0 ;;
+    match py_int (t_str t0) with
+    | Some n => POk (AnyValue (VNum n))
+    | None => PRej (mkXpe (Some (t_pos t0)) msg_parse_evaluation_expression_1 false)     (* except ValueError *)
+    end
   else if all_tokens_match tokens [S_ STRING] then
     t0 <- nth_tok tokens 0 ;; POk (AnyValue (VStr (py_strip_ends (t_str t0))))
   else if all_tokens_match tokens [S_ STRUDEL; S_ NAME] then
@@ -285,12 +297,12 @@ Definition parse_evaluation_expression_body (rec : list ttree -> pres expr) (tok
           | None => PCrash S_expr_operators_lookup
           | Some op => POk (BooleanOperator op left right)
           end
-        else PCrash S_expr_operand
+        else PRej (mkXpe (Some (t_pos token)) (msg_parse_evaluation_expression_2 (t_str token)) false)
     | None =>
         match tokens with
         | [] => PCrash S_expr_empty
         | TG _ :: _ => PCrash S_expr_first_not_token
-        | TT t0 :: _ => PRej (mkXpe (Some (t_pos t0)) msg_parse_evaluation_expression_0 false)
+        | TT t0 :: _ => PRej (mkXpe (Some (t_pos t0)) msg_parse_evaluation_expression_3 false)
         end
     end.
 
@@ -331,7 +343,7 @@ Fixpoint parse_predicates (pe : list ttree -> pres expr) (tokens : list ttree) {
         match last (map Some tokens) None with
         | None => PCrash S_step_pred_last_index
         | Some (TG _) => PCrash S_step_pred_last_not_token
-        | Some (TT t) => PRej (mkXpe (Some (t_pos t)) msg_parse_location_step_3 false)
+        | Some (TT t) => PRej (mkXpe (Some (t_pos t)) msg_parse_location_step_6 false)
         end
   end.
 
@@ -350,7 +362,7 @@ Definition step_missing_test (all_tokens : list ttree) : pres step :=
   | None => PCrash S_step_all_tokens_last
   | Some (TG _) => PCrash S_step_last_not_token
   | Some (TT last_token) =>
-      PRej (mkXpe (Some (t_pos last_token + length (t_str last_token))) msg_parse_location_step_0 false)
+      PRej (mkXpe (Some (t_pos last_token + length (t_str last_token))) msg_parse_location_step_1 false)
   end.
 
 (* name test's prefix *)
@@ -364,7 +376,7 @@ Definition step_prefix (tokens1 : list ttree) : pres (option str * list ttree) :
 Definition step_node_test (prefix : option str) (tokens2 : list ttree) : pres (node_test * list ttree) :=
   if initial_tokens_match tokens2 [S_ NAME; S_ OPEN_PARENS; None; S_ CLOSE_PARENS] then
     t0 <- nth_tok tokens2 0 ;;
-    if negb (str_eqb (t_str t0) pi_test_name) then PCrash S_step_pi_name else
+    if negb (str_eqb (t_str t0) pi_test_name) then PRej (mkXpe (Some (t_pos t0)) msg_parse_location_step_2 false) else
     g <- nth_group tokens2 2 ;;
     match g with
     | [] => PCrash S_step_pi_arg_index
@@ -374,6 +386,7 @@ Definition step_node_test (prefix : option str) (tokens2 : list ttree) : pres (n
     end
   else if initial_tokens_match tokens2 [S_ NAME; S_ OPEN_PARENS; S_ CLOSE_PARENS] then
     t0 <- nth_tok tokens2 0 ;;
+    if negb (is_node_type_name (t_str t0)) then PRej (mkXpe (Some (t_pos t0)) msg_parse_location_step_3 false) else
     match node_type_lookup (t_str t0) with
     | None => PCrash S_step_node_type
     | Some k => POk (NodeTypeTest k, skipn 3 tokens2)
@@ -383,18 +396,19 @@ Definition step_node_test (prefix : option str) (tokens2 : list ttree) : pres (n
     t0 <- nth_tok tokens2 0 ;; POk (NameMatchTest prefix (t_str t0), skipn 1 tokens2)
   else if initial_tokens_match tokens2 [S_ STRUDEL; S_ NAME] then
     t0 <- nth_tok tokens2 0 ;;
-    PRej (mkXpe (Some (t_pos t0)) (msg_unsupported msg_parse_location_step_1) true)
+    PRej (mkXpe (Some (t_pos t0)) (msg_unsupported msg_parse_location_step_4) true)
   else
     match tokens2 with
     | [] => PCrash S_step_test_index
     | TG _ :: _ => PCrash S_step_test_not_token
-    | TT t0 :: _ => PRej (mkXpe (Some (t_pos t0)) msg_parse_location_step_2 false)
+    | TT t0 :: _ => PRej (mkXpe (Some (t_pos t0)) msg_parse_location_step_5 false)
     end.
 
 Definition parse_location_step (pe : list ttree -> pres expr) (tokens0 : list ttree) : pres step :=
   let all_tokens := tokens0 in
   at1 <- step_axis tokens0 ;;
-  if null (snd at1) then step_missing_test all_tokens
+  if null all_tokens then PRej (mkXpe None msg_parse_location_step_0 false)       (* Missing location step. *)
+  else if null (snd at1) then step_missing_test all_tokens
   else
     pt <- step_prefix (snd at1) ;;
     nt <- step_node_test (fst pt) (snd pt) ;;
@@ -441,6 +455,12 @@ Definition finalize (r : pres xpath_expr) : outcome :=
 Definition parse_from (s : str) (toks : pres (list token)) : outcome :=
   finalize (t <- toks ;; parse_tokens (S (length s)) t).
 Definition parse (s : str) : outcome := parse_from s (tokenize s).
+
+(* CPython's recursion limit is outside the model: whether the interpreter runs out of stack during a call
+   depends on the depth of the caller's stack, so it is an input here.  parse() catches RecursionError
+   wherever it arises and raises XPathParsingError(expression, position=0, msg_parse_0) instead. *)
+Definition parse_under (stack_overflow : bool) (s : str) : outcome :=
+  if stack_overflow then ORej 0 msg_parse_0 false else parse s.
 
 (* str(e): the three asserts of XPathParsingError.__str__, then the generated rendering *)
 Definition xpe_str (expression : option str) (position : option nat) (message : option str) : option str :=
@@ -526,6 +546,10 @@ Definition k_slice : str := [115;108;105;99;101]%N.
 Definition k_subscript : str := [115;117;98;115;99;114;105;112;116]%N.
 Definition k_while : str := [119;104;105;108;101]%N.
 
+Definition k_except_ValueError : str := [101;120;99;101;112;116;95;86;97;108;117;101;69;114;114;111;114]%N.
+Definition k_except_RecursionError : str :=
+  [101;120;99;101;112;116;95;82;101;99;117;114;115;105;111;110;69;114;114;111;114]%N.
+
 Definition model_audit_counts : list (list (str * N)) := [
   (* tokenizer.tokenize: assert match is not None / assert isinstance(token, str), getattr(TokenType, ..),
      raise RuntimeError, match[token_type]: cannot fail (header of Tok.v); raise XPE = ERROR branch of lex;
@@ -534,35 +558,37 @@ Definition model_audit_counts : list (list (str * N)) := [
   [];   (* parser.all_tokens_match *)
   [];   (* parser.compare_tokens_with_pattern *)
   [];   (* parser.expand_axes *)
-  (* parser.group_enclosed_expressions: COMPLEMENTING_TOKEN_TYPES[..] = S_group_complement; pop = S_group_pop;
-     2 raises = the two PRej; slice = py_slice; subscripts openers[-1] and [..][1] under `if openers` *)
-  [a_ k_dict_lookup 1; a_ k_pop 1; a_ k_raise_XPE 2; a_ k_slice 1; a_ k_subscript 2];
+  (* parser.group_enclosed_expressions: COMPLEMENTING_TOKEN_TYPES[..] = S_group_complement; pop = S_group_pop
+     (after `if not openers: raise`); 3 raises = the three PRej; slice = py_slice; subscripts openers[-1] and
+     [..][1] under `if openers` *)
+  [a_ k_dict_lookup 1; a_ k_pop 1; a_ k_raise_XPE 3; a_ k_slice 1; a_ k_subscript 2];
   [];   (* parser.initial_tokens_match *)
   (* parser.parse_location_path: S_path_not_implemented; "Missing location path."; tokens[0] twice = S_path_first *)
   [a_ k_raise_NotImplementedError 1; a_ k_raise_XPE 1; a_ k_subscript 2];
   (* parser.parse_location_step:
-     asserts 12 = 8 isinstance after a pattern match (S_guarded_assert: tokens[0] x6, tokens[1] Sequence, ...)
-                  + S_step_last_not_token + S_step_pi_name + S_step_pi_arg_not_token
-                  + (S_step_test_not_token, S_step_pred_last_not_token) -- 13 isinstance/== asserts minus none:
-                  counted by the generator as 12 because `assert isinstance(tokens[1], Sequence)` is one of them;
-     dict lookups: NODE_TYPE_TEST_MAPPING[..] = S_step_node_type, OPERATORS["="] = S_step_operators_lookup;
-     except + raise e = at_position around axis_ctor; 3 raise XPE + 1 Unsupported = the four PRej;
-     slices = skipn / py_strip_ends; subscripts: guarded ones = nth_tok / nth_group / the destructuring in
-     parse_predicates, all_tokens[-1] = S_step_all_tokens_last, tokens[2][0] = S_step_pi_arg_index,
-     tokens[0] in the last else = S_step_test_index, tokens[-1] = S_step_pred_last_index;
-     while = parse_predicates *)
-  [a_ k_assert 12; a_ k_call_Axis 2; a_ k_call_Function 1; a_ k_dict_lookup 2; a_ k_except_XPE 1; a_ k_raise_XPE 3;
-   a_ k_raise_Unsupported 1; a_ k_raise_e 1; a_ k_slice 8; a_ k_subscript 22; a_ k_while 1];
+     asserts 11 = isinstance after a pattern match (S_guarded_assert) + S_step_last_not_token
+                  + S_step_pi_arg_not_token + S_step_test_not_token + S_step_pred_last_not_token;
+     dict lookups: NODE_TYPE_TEST_MAPPING[..] = S_step_node_type (after the `not in` test), OPERATORS["="] =
+     S_step_operators_lookup; except + raise e = at_position around axis_ctor; 6 raise XPE + 1 Unsupported =
+     the seven PRej (missing step, missing node test, 3 x unrecognized node test, attribute lookup,
+     unrecognized expression); slices = skipn / py_strip_ends; subscripts: guarded ones = nth_tok /
+     nth_group / the destructuring in parse_predicates / tokens[0] of the three new raises,
+     all_tokens[-1] = S_step_all_tokens_last, tokens[2][0] = S_step_pi_arg_index, tokens[0] in the last
+     else = S_step_test_index, tokens[-1] = S_step_pred_last_index; while = parse_predicates *)
+  [a_ k_assert 11; a_ k_call_Axis 2; a_ k_call_Function 1; a_ k_dict_lookup 2; a_ k_except_XPE 1; a_ k_raise_XPE 6;
+   a_ k_raise_Unsupported 1; a_ k_raise_e 1; a_ k_slice 8; a_ k_subscript 25; a_ k_while 1];
   (* parser.parse_evaluation_expression:
-     asserts 12 = 10 isinstance after a pattern match + assert isinstance(token, list) (the type ttree)
-                  + S_expr_operand ... and the final isinstance = S_expr_first_not_token;
-     OPERATORS[token.string] = S_expr_operators_lookup; int() = S_expr_int; except + raise e = at_position around
-     function_ctor; raise XPE = the final PRej; slices = firstn / skipn / py_strip_ends;
-     subscripts: guarded ones = nth_tok / nth_group, the final tokens[0] = S_expr_empty *)
-  [a_ k_assert 12; a_ k_call_Function 2; a_ k_dict_lookup 1; a_ k_except_XPE 1; a_ k_int 1; a_ k_raise_XPE 1;
-   a_ k_raise_e 1; a_ k_slice 3; a_ k_subscript 21];
+     asserts 11 = isinstance after a pattern match + assert isinstance(token, list) (the type ttree)
+                  + the final isinstance = S_expr_first_not_token;
+     OPERATORS[token.string] = S_expr_operators_lookup; int() + except ValueError = py_int / its None branch;
+     except XPE + raise e = at_position around function_ctor; 4 raise XPE = missing expression, number too
+     long, operator misses an operand, unrecognized predicate expression; slices = firstn / skipn /
+     py_strip_ends; subscripts: guarded ones = nth_tok / nth_group, the final tokens[0] = S_expr_empty *)
+  [a_ k_assert 11; a_ k_call_Function 2; a_ k_dict_lookup 1; a_ k_except_ValueError 1; a_ k_except_XPE 1; a_ k_int 1;
+   a_ k_raise_XPE 4; a_ k_raise_e 1; a_ k_slice 3; a_ k_subscript 22];
   [];   (* parser.partition_tokens *)
-  [a_ k_except_XPE 1; a_ k_raise_e 1];                       (* parser.parse: finalize *)
+  (* parser.parse: finalize; except RecursionError + raise XPE = parse_under true *)
+  [a_ k_except_RecursionError 1; a_ k_except_XPE 1; a_ k_raise_XPE 1; a_ k_raise_e 1];
   [a_ k_getattr 1; a_ k_raise_XPE 1];                        (* ast.Axis.__init__: axis_ctor *)
   (* ast.Function.__init__: two PRej of function_ctor; tuple(parameters.values())[-1] is evaluated only when
      len(parameters) > 1 *)
